@@ -22,6 +22,7 @@ and the levels `== != = ;` above the ladder when their operands are not ladder t
 sufficiently large fuel"; that `parse`'s own budget `64·(n+2)` is sufficient is checked by the correspondence run, not proved.
 -/
 import FendModel.Proofs.ParserArith
+import FendModel.Proofs.ParserTop
 
 namespace Fend.C08
 open Fend.Parser
@@ -119,5 +120,24 @@ private def ex2 : Chain 6 :=
 example : ex2.toExpr = .bop .shl (.bop .minus (.bop .mul (.neg (.bop .pow (.num "2") (.fact (.num "3")))) (.parens (.bop .plus (.num "1") (.num "2")))) (.num "4")) (.num "5") := rfl
 example : ex2.toToks = [.sym .sub, .num "2", .sym .pow, .num "3", .sym .fact, .sym .mul, .sym .openP, .num "1", .sym .add, .num "2", .sym .closeP,
     .sym .sub, .num "4", .sym .shl, .num "5"] := rfl
+
+/-- **the top of the table** (`==`/`!=` above `=` above `;`): a sequence `a1 ; a2 ; … ; an` in which each `ai` is a complete
+operator chain, one comparison of two chains, or (right-nested) assignments of such to identifiers, parses from the statement
+level — with enough fuel — to exactly `stmts (… (stmts a1 a2) …) an` with `assign x (…)` and `equality` nodes where the table
+puts them, and consumes all input -/
+theorem roundtrip_top (a : AsT) (t : List AsT) :
+    ∃ F, ∀ fuel, F ≤ fuel → run fuel .statements (a.toToks ++ semiToks t) = some (foldStmts a.toExpr t, []) := by
+  obtain ⟨F, hF⟩ := statements_ok a t
+  exact ⟨F, fun fuel hf => by simpa using hF fuel hf [] (Or.inl rfl)⟩
+
+-- non-vacuity: `a = b = 1 == 2 ; 3 != 4 ; 5` is stmts (stmts (assign a (assign b (1 == 2))) (3 != 4)) 5
+private def c6 (n : String) : Chain 6 := .up (.up (.up (.up (.up (.up (num n))))))
+private def exTop : AsT := .assign "a" (.assign "b" (.plain (.cmp true (c6 "1") (c6 "2"))))
+private def exRest : List AsT := [.plain (.cmp false (c6 "3") (c6 "4")), .plain (.plain (c6 "5"))]
+
+example : foldStmts exTop.toExpr exRest
+    = .stmts (.stmts (.assign "a" (.assign "b" (.equality true (.num "1") (.num "2")))) (.equality false (.num "3") (.num "4"))) (.num "5") := rfl
+example : exTop.toToks ++ semiToks exRest = [.ident "a", .sym .eq, .ident "b", .sym .eq, .num "1", .sym .eq2, .num "2", .sym .semi,
+    .num "3", .sym .ne, .num "4", .sym .semi, .num "5"] := rfl
 
 end Fend.C08
